@@ -466,7 +466,9 @@ fn adaptive_caps(out: &mut Partial) {
         }
     }
     let s = w.snapshot(a);
-    if became_server_at.is_none() {
+    if !problems.is_empty() {
+        // (the timeline was cut short at the first problem)
+    } else if became_server_at.is_none() {
         problems.push(("part-setup/adaptive-node-did-not-become-a-server".into(), "the adaptive node on a reachable public address is not a server after 20 minutes".into()));
     } else if token.is_none() {
         problems.push(("part-setup/no-token".into(), "the node (a server by now) issued no token to a get at minute 17".into()));
